@@ -375,7 +375,7 @@ Definition tok_wf (t : tok) : Prop :=
   | TComment s => find_sub "-->" (s ++ "-->") = Some (s, "")
   | TCData s => find_sub "]]>" (s ++ "]]>") = Some (s, "")
   | TPI s => find_sub "?>" (s ++ "?>") = Some (s, "")
-  | TDoctype s => forall_char not_gt s = true /\ skip_xws s = s
+  | TDoctype s => forall_char not_gt s = true /\ forall_char not_lt s = true /\ skip_xws s = s
   | TRawStart _ | TRawEmpty _ => False
   end.
 Definition is_text (t : tok) : bool := match t with TText _ => true | _ => false end.
@@ -384,6 +384,16 @@ Lemma rtrim_id n : forall_char (fun c => negb (is_xml_ws c)) n = true -> rtrim_x
 Proof.
   induction n as [|c n IH]; intros H; [reflexivity|]. cbn in H. apply andb_true_iff in H as [Hc Hn].
   apply negb_true_iff in Hc. cbn [rtrim_xws]. rewrite (IH Hn). destruct n; [now rewrite Hc | reflexivity].
+Qed.
+
+Lemma scan_dt_plain s rest : forall_char not_gt s = true -> forall_char not_lt s = true ->
+  scan_dt (s ++ String ">" rest) 0 = Some (s, rest).
+Proof.
+  induction s as [|c s IH]; cbn [append forall_char scan_dt]; intros Hg Hl.
+  - reflexivity.
+  - apply andb_true_iff in Hg as [Hg1 Hg2]. apply andb_true_iff in Hl as [Hl1 Hl2].
+    unfold not_gt in Hg1. unfold not_lt in Hl1. apply negb_true_iff in Hg1, Hl1.
+    rewrite (Ascii.eqb_sym c ">"), Hg1, (Ascii.eqb_sym c "<"), Hl1. rewrite (IH Hg2 Hl2). reflexivity.
 Qed.
 
 Lemma read_markup_wf t : tok_wf t -> is_text t = false ->
@@ -413,13 +423,14 @@ Proof.
     unfold read_markup. cbn [append strip_prefix Ascii.eqb Bool.eqb]. cbn iota.
     rewrite app_assoc_str. rewrite <- (app_assoc_str s "?>" rest).
     rewrite (find_sub_stable _ rest _ _ _ H). reflexivity.
-  - destruct H as (Hs & Hk). exists ("!DOCTYPE " ++ s ++ ">"). split; [reflexivity|]. intros rest.
+  - destruct H as (Hs & Hl & Hk). exists ("!DOCTYPE " ++ s ++ ">"). split; [reflexivity|]. intros rest.
     unfold read_markup. cbn [append strip_prefix Ascii.eqb Bool.eqb]. cbn iota.
     rewrite app_assoc_str. cbn [append].
     change (String " " (s ++ String ">" rest)) with ((String " " s) ++ String ">" rest).
-    rewrite break_at_app; [| | reflexivity].
+    rewrite scan_dt_plain.
     + unfold skip_xws in *. cbn [drop_while]. change (is_xml_ws " ") with true. cbn iota. now rewrite Hk.
     + cbn. exact Hs.
+    + cbn. exact Hl.
 Qed.
 
 Fixpoint no_adj_text (ts : list tok) : Prop :=
